@@ -54,6 +54,7 @@ let handle (w : string list) : string =
   | ["acr122_cmd_ok"; f] -> show_opt hex_of_bytes (acr122_cmd_ok (bytes_of_hex f))
   | ["acr122_rsp_ok"; f] -> show_opt hex_of_bytes (acr122_rsp_ok (bytes_of_hex f))
   | ["rcs380_build"; d] -> hex_of_bytes (rcs380_build (bytes_of_hex d))
+  | ["type_a_rsp"; sel; rxm; f] -> show_res hex_of_bytes (type_a_rsp (bytes_of_hex sel) (zi rxm) (bytes_of_hex f))
   | ["rcs380_frame_ok"; f] -> show_opt hex_of_bytes (rcs380_frame_ok (bytes_of_hex f))
   | _ -> "?unknown-command"
 
